@@ -1,7 +1,49 @@
 import A2Verif.Model.Hex
-/-! driver family `c12` (stub until the family is built) -/
-namespace A2Verif.Drv.C12
+import A2Verif.Model.Robust
+import A2Verif.Model.RobustWoz
+import A2Verif.Model.RobustDetok
+/-!
+driver family `c12`: outcome class (`ok`/`err`/`panic`) of the modelled parsing fronts *for the code as it is
+now* (models selected by `A2Verif.Gen.C12Flags`).
 
-def handle (_toks : List String) : String := "bad-request"
+* `c12 fimgver <hex of the version string>` → `<classA> <classB>`: `FileImage::from_json` on a JSON object
+  holding only `fimg_version` (A) and on a complete, well formed file image with that version (B)
+* `c12 fatmount <hex of sector bytes 0..64> <hex of bytes 510,511>` → class of `fat::Disk::test_img` followed by
+  `fat::Disk::from_img` on an image whose sector 0 is those bytes with zeros in between (`err` = not FAT)
+* `c12 woz2 <hex of the file>` → class of `Woz2::from_bytes`
+* `c12 adetok <hex>` / `c12 idetok <hex>` → class of the Applesoft / Integer BASIC `detokenize` (default settings)
+-/
+namespace A2Verif.Drv.C12
+open A2Verif.Model.Robust
+
+def handle (toks : List String) : String :=
+  match toks with
+  | ["fimgver", h] =>
+    match Hex.ofHex h with
+    | some s =>
+      let a := fromJsonNow (some s) ⟨false, false, false⟩
+      let b := fromJsonNow (some s) ⟨true, true, true⟩
+      a.cls ++ " " ++ b.cls
+    | none => "bad-request"
+  | ["fatmount", h, sg] =>
+    match Hex.ofHex h, Hex.ofHex sg with
+    | some hd, some sig =>
+      if hd.length = 64 ∧ sig.length = 2 then
+        (fatMountNow (hd ++ List.replicate 446 0 ++ sig)).cls
+      else "bad-request"
+    | _, _ => "bad-request"
+  | ["adetok", h] =>
+    match Hex.ofHex h with
+    | some img => (aDetokNow img).cls
+    | none => "bad-request"
+  | ["idetok", h] =>
+    match Hex.ofHex h with
+    | some img => (iDetokNow img).cls
+    | none => "bad-request"
+  | ["woz2", h] =>
+    match Hex.ofHex h with
+    | some buf => (woz2FromBytesNow buf).cls
+    | none => "bad-request"
+  | _ => "bad-request"
 
 end A2Verif.Drv.C12
